@@ -578,6 +578,11 @@ static void run_vt(const std::vector<std::string> &w, out &o)
 
 static void run_op(const std::vector<std::string> &w, const std::string &, out &o)
 {
+    // hv::main_ arms a 3 s watchdog per op.  On this (virtualised, shared) machine a process
+    // is occasionally not scheduled for seconds (steal time): 50 ms sweep ops were seen to hit
+    // the 3 s limit under external load.  None of the routines under test has an unbounded
+    // loop that a stall could be confused with for long, so give every op 20 s instead.
+    hv::arm(20);
     if (!g_block) g_block = (uint8_t *)malloc(BLK);
     if (w.empty()) { o.result = "bad-op"; return; }
     const std::string &op = w[0];
